@@ -190,7 +190,7 @@ impl H263State {
             let mut chroma_r_levels =
                 vec![DecodedDctBlock::Zero; level_dimensions.0 * level_dimensions.1 / 4 / 64];
 
-            loop {
+            while macroblock_types.len() < mb_per_line * mb_height {
                 #[cfg(feature = "verif")]
                 crate::verif::mb_iteration(reader.verif_position().0, macroblock_types.len());
 
